@@ -84,7 +84,9 @@ var nestGens = []nestGen{
 	{"comprehension-clauses", func(n int) string { return "x = [1 " + rep("for i in [1] if i ", n) + "]\n" }, 18},
 	{"dict-comp-nest", func(n int) string { return "x = " + rep("{1:", n) + "1" + rep(" for i in [1]}", n) + "\n" }, 17},
 	{"slice-chain", func(n int) string { return "x = \"abc\"" + rep("[::]", n) + "\n" }, 4},
-	{"assign-chain-tuple", func(n int) string { return rep("(", n) + "a" + rep(",)", n) + " = " + rep("(", n) + "1" + rep(",)", n) + "\n" }, 6},
+	{"assign-chain-tuple", func(n int) string {
+		return rep("(", n) + "a" + rep(",)", n) + " = " + rep("(", n) + "1" + rep(",)", n) + "\n"
+	}, 6},
 	{"star-args", func(n int) string { return "def f(*a, **k): return 0\nx = f(" + rep("1,", n) + ")\n" }, 2},
 	{"kw-args", func(n int) string {
 		var b strings.Builder
@@ -129,7 +131,9 @@ var nestGens = []nestGen{
 	{"statements-many", func(n int) string { return rep("x=1\n", n) }, 4},
 	{"semicolons", func(n int) string { return "x=1" + rep(";x=1", n) + "\n" }, 4},
 	// (sizes capped: the result doubles per step; building gigabyte values is memory exhaustion, outside the claim)
-	{"string-repeat-mul-runtime", func(n int) string { return "x = \"a\"" + rep("*2", min(n, 22)) + "\ny = [1]" + rep("*2", min(n, 22)) + "\n" }, 2},
+	{"string-repeat-mul-runtime", func(n int) string {
+		return "x = \"a\"" + rep("*2", min(n, 16)) + "\ny = [1]" + rep("*2", min(n, 16)) + "\n"
+	}, 2},
 	{"shift-runtime", func(n int) string { return "x = 1" + rep("<<500", min(n, 1500)) + "\n" }, 5},
 	{"def-nest", func(n int) string {
 		return blockNest(func(d int) string { return fmt.Sprintf("def f%d():", d) }, n, "return 1")
@@ -143,14 +147,14 @@ var nestGens = []nestGen{
 	{"while-nest", func(n int) string {
 		return "def f():\n" + indent(blockNest(func(d int) string { return "while 1:" }, n, "return 1"), " ") + "x = f()\n"
 	}, 0},
-	{"elif-chain", func(n int) string { return "def f():\n if 0: pass\n" + rep(" elif 0: pass\n", n) + " else: return 1\nx = f()\n" }, 14},
+	{"elif-chain", func(n int) string {
+		return "def f():\n if 0: pass\n" + rep(" elif 0: pass\n", n) + " else: return 1\nx = f()\n"
+	}, 14},
 	{"indent-dedent-noise", func(n int) string { return "def f():\n" + rep("  x=1\n   y=2\n", n) }, 12},
 	{"tabs-vs-spaces", func(n int) string { return "def f():\n" + rep("\tif 1:\n        pass\n", n) }, 20},
 	{"load-many", func(n int) string { return rep("load(\"m\", \"a\")\n", n) }, 15},
 	{"recursion-runtime", func(n int) string { return "def f(n):\n  return f(n+1)\nx = f(0)\n" }, 0},
 	{"mutual-recursion-runtime", func(n int) string { return "def g(n): return f(n)\ndef f(n): return g(n)\nx = f(0)\n" }, 0},
-	{"closure-self-freeze", func(n int) string { return "def outer():\n  def f(): return f\n  return f\ng = outer()\n" }, 0},
-	{"struct-in-own-list-print", func(n int) string { return "l = []\ns = struct(x=l)\nl.append(s)\nprint(l)\n" }, 0},
 	{"deep-list-runtime-print", func(n int) string {
 		return "def f():\n  l = []\n  for i in range(" + fmt.Sprint(n*3) + "):\n    l = [l]\n  return l\nx = f()\ny = str(x)\nz = (x == x)\nj = json.encode(x)\n"
 	}, 0},
@@ -163,7 +167,12 @@ var nestGens = []nestGen{
 	{"json-decode-deep", func(n int) string {
 		return "x = json.decode(\"[\" * " + fmt.Sprint(n*3) + " + \"]\" * " + fmt.Sprint(n*3) + ")\ny = json.decode(\"{\\\"a\\\":\" * " + fmt.Sprint(n) + ")\n"
 	}, 0},
-	{"format-deep", func(n int) string { return "x = \"" + rep("{", n) + rep("}", n) + "\".format(1)\ny = \"" + rep("%", n) + "s\" % 1\n" }, 3},
+	{"format-deep", func(n int) string {
+		return "x = \"" + rep("{", n) + rep("}", n) + "\".format(1)\ny = \"" + rep("%", n) + "s\" % 1\n"
+	}, 3},
+	// last: the two programs that build a cyclic value (a crash here restarts the worker)
+	{"closure-self-freeze", func(n int) string { return "def outer():\n  def f(): return f\n  return f\ng = outer()\n" }, 0},
+	{"struct-in-own-list-print", func(n int) string { return "l = []\ns = struct(x=l)\nl.append(s)\nprint(l)\n" }, 0},
 }
 
 func indent(s, pre string) string {
@@ -454,7 +463,27 @@ type srcCase struct {
 	Src    string `json:"-"`
 }
 
+type nestCase struct{ gi, si int }
+
+// generators whose text does not depend on n are enumerated once
+func nestCases(quick bool) []nestCase {
+	var out []nestCase
+	for gi, g := range nestGens {
+		for si := range nestSizes {
+			if si > 0 && g.mk(3) == g.mk(40) {
+				continue
+			}
+			if quick && (nestSizes[si] == 9000 || nestSizes[si] == 40 || nestSizes[si] == 2000) {
+				continue
+			}
+			out = append(out, nestCase{gi, si})
+		}
+	}
+	return out
+}
+
 type srcMode struct {
+	nc     []nestCase
 	o      *opts
 	nNest  int64
 	nRand  int64
@@ -467,8 +496,8 @@ type srcMode struct {
 }
 
 func newSrcMode(o *opts) *srcMode {
-	m := &srcMode{o: o}
-	m.nNest = int64(len(nestGens) * len(nestSizes))
+	m := &srcMode{o: o, nc: nestCases(o.tier != "thorough")}
+	m.nNest = int64(len(m.nc))
 	m.nRand = 500
 	if o.tier == "thorough" {
 		m.allOpt = true
@@ -491,6 +520,27 @@ func newSrcMode(o *opts) *srcMode {
 	return m
 }
 
+// Spans: the nesting block goes to two long-lived workers (growing the Go
+// stack for the first deeply nested source costs seconds per process).
+func (m *srcMode) Spans(workers int) []span {
+	if m.single != nil {
+		return []span{{0, 1}}
+	}
+	var out []span
+	parts := int64(2)
+	if m.allOpt {
+		parts = int64(workers)
+	}
+	for p := int64(0); p < parts; p++ {
+		out = append(out, span{m.nNest * p / parts, m.nNest * (p + 1) / parts})
+	}
+	chunk := m.nRand/int64(workers*3) + 1
+	for lo := m.nNest; lo < m.nNest+m.nRand; lo += chunk {
+		out = append(out, span{lo, min(lo+chunk, m.nNest+m.nRand)})
+	}
+	return out
+}
+
 func (m *srcMode) Count() int64 {
 	if m.single != nil {
 		return 1
@@ -510,7 +560,7 @@ func (m *srcMode) decode(i int64) srcCase {
 			op = int(i % 64)
 			k = i / 64
 		}
-		gi, si := int(k)/len(nestSizes), int(k)%len(nestSizes)
+		gi, si := m.nc[k].gi, m.nc[k].si
 		s, n := nestSource(gi, si)
 		return srcCase{Cat: "nest:" + nestGens[gi].name, Recipe: fmt.Sprintf("generator %s, n=%d, %d bytes", nestGens[gi].name, n, len(s)), Opts: op, Src: s}
 	}
@@ -566,6 +616,18 @@ func (m *srcMode) Describe(i int64) map[string]any {
 	}
 	return map[string]any{"category": c.Cat, "recipe": c.Recipe, "opts": c.Opts, "bytes": len(c.Src), "head": head,
 		"source_b64": base64.StdEncoding.EncodeToString([]byte(c.Src))}
+}
+
+// StackMB: the programs that build a cyclic value at run time are run with a
+// small maximum stack (an endless recursion overflows any stack; the default
+// 1 GB takes ~20 s to fill); everything else runs with Go's default limit so
+// that a deep but finite recursion is not misreported.
+func (m *srcMode) StackMB(i int64) int {
+	c := m.decode(i)
+	if strings.Contains(c.Src, "struct(") || strings.Contains(c.Cat, "closure-self") {
+		return 64
+	}
+	return 0
 }
 
 func (m *srcMode) Dist(i int64) string { return strings.SplitN(m.decode(i).Cat, ":", 2)[0] }
